@@ -70,6 +70,14 @@ Theorem C15_complete_accepted : forall cl h registry root,
 Proof. exact complete_accepted. Qed.
 Print Assumptions C15_complete_accepted.
 
+(* the walk with an explicit stack used above is the recursive method: whatever
+   the recursive validate() answers (it did not exhaust its recursion budget),
+   cfg_validate answers                                                          *)
+Theorem C15_recursive_validate_agrees : forall cl h fuel root r,
+  validate_rec objs cl h fuel [] root = Some r -> cfg_validate cl h root = Some r.
+Proof. exact recursive_validate_agrees. Qed.
+Print Assumptions C15_recursive_validate_agrees.
+
 (* the literal walk of the pinned commit is only correct for configurations held
    directly and when the marks left by earlier validations are sound              *)
 Theorem C15_missing_rejected_prefix : forall cl h st root m,
